@@ -21,8 +21,33 @@ _counter = itertools.count()
 PRIMS = {"int": int, "str": str, "list": list, "dict": dict, "float": float, "bool": bool}
 RAW_BASES = ("raw", "reg", "tyme", "iceraw", "icereg", "icetyme")
 ALL_BASES = RAW_BASES + ("map", "icemap")
-FNAMES = ["a", "b", "c", "x", "y", "k_1", "é"]
+FNAMES = ["a", "b", "c", "x", "y", "k_1", "é", "_seq", "_", "__d", "x_", "class_", "_é", "_0", "ñ2", "__len"]
 KEYS = FNAMES + ["", "q", "zz", "ключ"]
+
+
+def fields_of(schema, j):
+    """effective (name, ann, dflt) list of class j as dataclasses.fields() orders it: inherited fields first, a
+    redeclared field keeps its inherited position"""
+    base, own = schema[j]
+    if isinstance(base, (tuple, list)) and base[0] == "sub":
+        inh = fields_of(schema, base[1])
+        names = [f for f, _, _ in inh]
+        for fld in own:
+            if fld[0] in names:
+                inh[names.index(fld[0])] = fld
+            else:
+                inh.append(fld)
+                names.append(fld[0])
+        return inh
+    return list(own)
+
+
+def base_of(schema, j):
+    """the hio base class kind at the root of class j's inheritance chain"""
+    base = schema[j][0]
+    while isinstance(base, (tuple, list)) and base[0] == "sub":
+        base = schema[base[1]][0]
+    return base
 
 
 def build_classes(schema):
@@ -31,15 +56,17 @@ def build_classes(schema):
     bases = dict(raw=doming.RawDom, reg=doming.RegDom, tyme=doming.TymeDom, iceraw=doming.IceRawDom,
                  icereg=doming.IceRegDom, icetyme=doming.IceTymeDom, map=doming.MapDom, icemap=doming.IceMapDom)
     classes = []
-    for base, flds in schema:
+    for k, (base, flds) in enumerate(schema):
         name = f"C28Dom{next(_counter)}"
         specs = []
         for fname, ann, dflt in flds:
             specs.append((fname, _pyann(ann, classes), _pyfield(dflt, classes)))
-        cls = dataclasses.make_dataclass(name, specs, bases=(bases[base],), frozen=base.startswith("ice"))
-        if base in ("reg", "tyme", "icereg", "icetyme"):
+        root = base_of(schema, k)
+        parent = classes[base[1]] if isinstance(base, (tuple, list)) else bases[base]
+        cls = dataclasses.make_dataclass(name, specs, bases=(parent,), frozen=root.startswith("ice"))
+        if root in ("reg", "tyme", "icereg", "icetyme"):
             cls = doming.registerify(cls)
-        if base in ("tyme", "icetyme"):
+        if root in ("tyme", "icetyme"):
             cls = doming.namify(cls)
         classes.append(cls)
     return classes
@@ -160,9 +187,9 @@ def wire_tree(t):
 
 def wire_schema(schema):
     out = []
-    for base, flds in schema:
+    for k in range(len(schema)):
         fs = []
-        for fname, ann, dflt in flds:
+        for fname, ann, dflt in fields_of(schema, k):
             a = ann[0]
             if a in ("any", "prim"):
                 w = "any"
@@ -194,7 +221,7 @@ def class_ann(ann):
 
 def upgradable(schema, j, t):
     """plain value that datify(class j, .) turns into an instance although it was not one"""
-    flds = schema[j][1]
+    flds = fields_of(schema, j)
     req = [f for f, _, d in flds if d is None]
     names = [f for f, _, _ in flds]
     if t[0] == "dict":
@@ -207,7 +234,7 @@ def upgradable(schema, j, t):
 
 def accepts(schema, j, names):
     """would class j accept a dict with exactly these keys (all known, all required present)?"""
-    flds = schema[j][1]
+    flds = fields_of(schema, j)
     return all(n in [f for f, _, _ in flds] for n in names) and all(f in names for f, _, d in flds if d is None)
 
 
@@ -217,7 +244,7 @@ def misplaced_obj(schema, t, ann=("dom", None)):
     if k == "obj":
         if not class_ann(ann) or (ann[1] is not None and t[1] not in members(ann)):
             return True
-        return any(misplaced_obj(schema, x, a) for x, (_, a, _) in zip(t[2], schema[t[1]][1]))
+        return any(misplaced_obj(schema, x, a) for x, (_, a, _) in zip(t[2], fields_of(schema, t[1])))
     if k == "list":
         return any(has_obj(x) for x in t[1])
     if k == "dict":
@@ -229,7 +256,7 @@ def upgraded_plain(schema, t, ann=("any",)):
     """K2 trigger: a plain dict / empty list / empty str sits in a class-annotated field and datify makes an instance of it"""
     k = t[0]
     if k == "obj":
-        return any(upgraded_plain(schema, x, a) for x, (_, a, _) in zip(t[2], schema[t[1]][1]))
+        return any(upgraded_plain(schema, x, a) for x, (_, a, _) in zip(t[2], fields_of(schema, t[1])))
     if class_ann(ann) and not has_obj(t):
         return any(upgradable(schema, j, t) for j in members(ann))
     return False
@@ -241,10 +268,10 @@ def ambiguous_union(schema, t, ann=("dom", None)):
         return False
     ms = members(ann) if class_ann(ann) and ann[1] is not None else []
     if t[1] in ms:
-        names = [f for f, _, _ in schema[t[1]][1]]
+        names = [f for f, _, _ in fields_of(schema, t[1])]
         if any(accepts(schema, j, names) for j in ms[:ms.index(t[1])]):
             return True
-    return any(ambiguous_union(schema, x, a) for x, (_, a, _) in zip(t[2], schema[t[1]][1]) if class_ann(a))
+    return any(ambiguous_union(schema, x, a) for x, (_, a, _) in zip(t[2], fields_of(schema, t[1])) if class_ann(a))
 
 
 # ---------------------------------------------------------------- generators
@@ -296,6 +323,13 @@ def gen_schema(rng, dirty):
         if k == n - 1 and rng.random() < 0.9 and base in ("map", "icemap"):
             base = "raw"
         names = rng.sample(FNAMES, rng.choice([0, 1, 2, 2, 3, 3, 4]))
+        sub = k >= 1 and rng.random() < 0.35
+        if sub:
+            # subclass of an earlier generated class (chains of depth >= 2 arise): inherits its fields, may redeclare one
+            base = ("sub", rng.randrange(k))
+            inherited = [f for f, _, _ in fields_of(schema + [(base, [])], k)]
+            if inherited and rng.random() < 0.3:
+                names = list(dict.fromkeys(names[:2] + [rng.choice(inherited)]))
         flds = []
         for fname in names:
             r = rng.random()
@@ -311,7 +345,7 @@ def gen_schema(rng, dirty):
                         ann = (kind, rng.sample(range(k), rng.choice([2, 2, 3]) if k >= 3 else 2))
                     else:
                         ann = (kind, j)
-            if base in ("tyme", "icetyme") or rng.random() < 0.5:
+            if sub or base in ("tyme", "icetyme") or rng.random() < 0.5:
                 d = rng.random()
                 if d < 0.5:
                     dflt = ("d", ("null",))
@@ -321,6 +355,10 @@ def gen_schema(rng, dirty):
                     dflt = ("d", rng.choice([("list", []), ("dict", [])]))
             else:
                 dflt = None
+            if sub:
+                par = {f: d for f, _, d in fields_of(schema, base[1])}
+                if fname in par and par[fname] is None:
+                    dflt = None          # a redeclared required field stays required (it keeps its inherited position)
             flds.append((fname, ann, dflt))
         flds.sort(key=lambda f: f[2] is not None)      # required fields first (dataclass rule)
         schema.append((base, flds))
@@ -339,7 +377,7 @@ def gen_value(rng, schema, ann, depth, dirty):
             return ("null",)
         if dirty and r < 0.95:
             return rng.choice([("dict", []), ("list", []), ("str", ""), gen_plain(rng, 1),
-                               ("dict", [(f, gen_leaf(rng)) for f, _, _ in schema[rng.choice(ms)][1][:rng.randrange(0, 4)]])])
+                               ("dict", [(f, gen_leaf(rng)) for f, _, _ in fields_of(schema, rng.choice(ms))[:rng.randrange(0, 4)]])])
         return rng.choice([("int", 7), ("bool", True), ("float", sx.fbits(2.5)), ("str", "s")])
     if a in ("list", "dictof", "strann") or (dirty and rng.random() < 0.15):
         if a == "strann" or a in ("any", "prim"):
@@ -357,7 +395,7 @@ def gen_value(rng, schema, ann, depth, dirty):
 
 
 def gen_obj(rng, schema, j, depth, dirty):
-    return ("obj", j, [gen_value(rng, schema, ann, depth, dirty) for _, ann, _ in schema[j][1]])
+    return ("obj", j, [gen_value(rng, schema, ann, depth, dirty) for _, ann, _ in fields_of(schema, j)])
 
 
 def gen_rt(rng):
@@ -372,7 +410,7 @@ def gen_seq(rng):
     serialisations that must fail, interleaved"""
     dirty = rng.random() < 0.15
     schema = gen_schema(rng, dirty)
-    raw = [j for j, (b, _) in enumerate(schema) if b in RAW_BASES] or [len(schema) - 1]
+    raw = [j for j in range(len(schema)) if base_of(schema, j) in RAW_BASES] or [len(schema) - 1]
     steps = []
     trees = []
     for _ in range(rng.choice([2, 3, 3, 4, 5, 6])):
@@ -383,7 +421,7 @@ def gen_seq(rng):
             steps.append(("rt", rng.choice(trees)))            # the same instance again, later in the history
         elif r < 0.45:
             j = rng.randrange(len(schema))
-            steps.append(("load", j, ("dict", [(f, gen_plain(rng, 1)) for f, _, _ in schema[j][1] if rng.random() < 0.8])))
+            steps.append(("load", j, ("dict", [(f, gen_plain(rng, 1)) for f, _, _ in fields_of(schema, j) if rng.random() < 0.8])))
         else:
             t = gen_obj(rng, schema, rng.choice(raw), 3, dirty)
             trees.append(t)
@@ -396,14 +434,14 @@ def gen_seq(rng):
 def gen_load(rng):
     schema = gen_schema(rng, rng.random() < 0.3)
     j = rng.randrange(len(schema))
-    flds = schema[j][1]
+    flds = fields_of(schema, j)
     r = rng.random()
     if r < 0.7:
         kvs = []
         for fname, ann, dflt in flds:
             if rng.random() < 0.8:
                 if ann[0] in ("dom", "opt", "union") and rng.random() < 0.7:
-                    sub = schema[rng.choice(members(ann))][1]
+                    sub = fields_of(schema, rng.choice(members(ann)))
                     v = ("dict", [(f, gen_plain(rng, 1)) for f, _, _ in sub if rng.random() < 0.85])
                 else:
                     v = gen_plain(rng, 2)
